@@ -131,8 +131,8 @@ Definition check_history (o : Z) (ps : list pop) (obs : list (Z * list Z * Z)) :
 (** ---- histories that start from a struct literal TailBitmap{Offset: off, Words: ws} ----
 
     The set starts as the bits stored in the literal.  The first word of a literal may be all-ones;
-    the head clause is required from the first Compact on, and from the first observation in which
-    it holds on (it is stable). *)
+    the head clause is required after every Compact and every Set into the first stored word, and
+    from the first observation in which it holds on (it is stable). *)
 (** the maximal runs of 1-bits of a bit sequence that starts at position [base], as intervals
     ([cur] = start of the run being read) *)
 Fixpoint runs (base : Z) (bs : list bool) (cur : option Z) : hist :=
@@ -148,7 +148,14 @@ Fixpoint runs (base : Z) (bs : list bool) (cur : option Z) : hist :=
 
 Definition hist_of_words (off : Z) (ws : list Z) : hist := runs off (flat ws) None.
 
-Definition is_compact (p : pop) : bool := match p with PCompact => true | _ => false end.
+(** calls after which the first stored word cannot be all-ones: Compact, and a Set into the first
+    stored word (it runs Compact) *)
+Definition touches_head (poff : Z) (p : pop) : bool :=
+  match p with
+  | PCompact => true
+  | PSet idx => (poff <=? idx) && (idx <? poff + 64)
+  | _ => false
+  end.
 
 Fixpoint check_run_lit (st : bool) (o : Z) (prev : Z * list Z) (H : hist) (ps : list pop)
          (obs : list (Z * list Z * Z)) : bool :=
@@ -156,7 +163,7 @@ Fixpoint check_run_lit (st : bool) (o : Z) (prev : Z * list Z) (H : hist) (ps : 
   | [], [] => true
   | p :: ps', ob :: obs' =>
       let H' := abs_step H p in
-      let st_now := st || is_compact p in
+      let st_now := st || touches_head (fst prev) p in
       check_step_gen st_now o prev H' p ob
       && check_run_lit (st_now || head_okb (snd (fst ob))) o (fst (fst ob), snd (fst ob)) H' ps' obs'
   | _, _ => false
